@@ -382,3 +382,8 @@ LEVEL_TEXT = ("Proof: Coq theorems (Properties/C16.v) over a model of Sync/IsSyn
 LEVEL_NOTE = ("Trusted: Coq kernel; the transcriptions Model/IO.v and Model/Bufio.v (the latter of Go's bufio, window "
               "representation of the buffer array; both exercised against the real code on every run); extraction and glue.")
 TECHNIQUE = "Coq proof by induction on the stream over a bufio reader oracle + model/implementation correspondence over buffer sizes and fragmentations"
+
+
+# coverage round (notes/coverage.md): cases and support theorems for exported identifiers outside the property text
+from gen import covlib
+covlib.install(globals())
